@@ -545,6 +545,61 @@ def run(prog, rep, tier):
     if n89 == 0:
         raise CheckerError("R8.9: no array field is range-indexed by two renderer arms (idiom not recognised)")
 
+    # ------------------------------------------------------------ R8.11 seconds come from the seconds field, microseconds from the microseconds field
+    # from_fixedstructptr has one arm per record layout; each reads the record's time into variables
+    # named tv_sec / tv_usec.  A variable whose name says microseconds must be fed by a field whose name
+    # says microseconds (or by the constant 0 for layouts without one), and likewise for seconds
+    # (cross-check of the arms' stated beliefs; a copy/paste slip otherwise truncates that layout's
+    # records to whole seconds or dates them by their microseconds).
+    R811 = rep.rule("R8.11", "time variables of every layout arm are fed by the field their name denotes")
+    fp = prog.body("s4lib::data::fixedstruct::FixedStruct::from_fixedstructptr")
+    n811 = 0
+
+    def _fields_of(b_, op_, depth=0):
+        res = set()
+        if op_[0] == "k":
+            return {"const"}
+        for x in b_.origins(op_, through_calls=("::into", "::try_into", "::unwrap", "i64>::from", "From<", "::from")):
+            if x[0] == "const":
+                res.add("const")
+            elif x[0] in ("arg", "local", "call"):
+                fl_ = [q for q in x[-1] if isinstance(q, str) and q not in ("*", "&") and not q.startswith("as ")]
+                res.add(fl_[-1] if fl_ else x[0])
+            else:
+                res.add(x[0])
+        return res
+    for l_, ds_ in sorted(fp.defs.items()):
+        nm_ = fp.local_name(l_) or ""
+        if "usec" in nm_:
+            want = "usec"
+        elif "sec" in nm_ and "nsec" not in nm_:
+            want = "sec"
+        else:
+            continue
+        for d_ in ds_:
+            if d_[1] == "call":
+                continue
+            rv_ = d_[2]
+            if rv_[0] != "use":
+                continue
+            srcs = _fields_of(fp, rv_[1])
+            named = sorted(x for x in srcs if x not in ("const", "arg", "local", "call"))
+            n811 += 1
+            bad_ = []
+            for f_ in named:
+                is_usec = "usec" in f_
+                is_sec = ("sec" in f_ and not is_usec) or "time" in f_
+                if want == "usec" and not is_usec and (is_sec or "tv" in f_):
+                    bad_.append(f_)
+                if want == "sec" and is_usec:
+                    bad_.append(f_)
+            rep.examined(R811, "%s|%s@%s" % (fp.path, nm_, ",".join(named) or "const"), sample={"variable": nm_, "fed_by": sorted(srcs), "line": fp.blocks[d_[0]].get("l")})
+            if bad_:
+                rep.violation(R811, "%s|%s<-%s" % (fp.path, nm_, bad_[0]), "from_fixedstructptr (line %s): `%s` is assigned from the field `%s`; that layout's records get their %s from the wrong field, "
+                              "so they are merged with other sources at the wrong instant (e.g. truncated to whole seconds)" % (fp.blocks[d_[0]].get("l"), nm_, bad_[0], "microseconds" if want == "usec" else "seconds"))
+    if n811 < 10:
+        raise CheckerError("R8.11: only %d assignments to tv_sec/tv_usec variables found" % n811)
+
     # ------------------------------------------------------------ R8.10 string bytes of a record are copied, not reinterpreted
     # Fixed-size string fields are arrays of c_char (i8 on most layouts).  A byte above 0x7F is a
     # negative i8; converting with a *checked* i8 -> u8 conversion and substituting a constant on
